@@ -788,6 +788,68 @@ def derived_types(run):
             "(case, zero compression, zones, prefix normalisation, time-zone and fraction variants)" % len(accepted))
     laws_value(run, accepted, pairs)
     ip_oracle(run)
+    dt_oracle(run)
+
+
+RE_DT = re.compile(rb"(\d{4})-(\d{2})-(\d{2})T(\d{2}):(\d{2}):(\d{2})(\.\d+)?(Z|([+-])(\d{2}):(\d{2}))")
+
+
+def dt_accepts(s):
+    """lexical space of ietf-yang-types:date-and-time: the pattern of the typedef (RFC 6991) and the field ranges of RFC 3339 sec. 5.6
+    -> (accepted, day exists in the month)"""
+    import calendar
+    m = RE_DT.fullmatch(s)
+    if not m:
+        return False, False
+    y, mo, d, h, mi, sec = (int(m.group(i)) for i in range(1, 7))
+    if not (1 <= mo <= 12 and 1 <= d <= 31 and h <= 23 and mi <= 59 and sec <= 60):
+        return False, False
+    if m.group(9) and not (int(m.group(10)) <= 23 and int(m.group(11)) <= 59):
+        return False, False
+    return True, d <= calendar.monthrange(y, mo)[1]
+
+
+def dt_oracle(run):
+    """Acceptance of date-and-time lexicals against an oracle written from RFC 6991 / RFC 3339: valid forms and systematic damage
+    (trailing / leading characters, case of T and Z, wrong separators, missing and surplus digits, field values at and beyond their
+    ranges, fraction and zone variants)."""
+    cx = run.cx
+    rng = cx.sub_rng("dt")
+    d = "t:ietf-yang-types:date-and-time"
+    if run.get("validate %s %s" % (d, hexs("2020-01-01T00:00:00Z")))[:2] == ["err", "Schema"]:
+        return
+    pool = set()
+    base = [b"2020-01-01T00:00:00Z", b"1999-12-31T23:59:59+01:00", b"2020-02-29T12:30:15.25-08:00", b"2021-06-30T23:59:60Z", b"0001-01-01T00:00:00.000000001+23:59"]
+    for b in base:
+        pool.add(b)
+        for junk in (b"junk", b" ", b"Z", b"0", b"\n", b"+", b".5"):
+            pool.add(b + junk)
+            pool.add(junk + b)
+        pool.add(b.replace(b"T", b"t")); pool.add(b.replace(b"Z", b"z")); pool.add(b.replace(b"T", b" "))
+        pool.add(b.replace(b"-", b"/", 1)); pool.add(b.replace(b":", b".", 1)); pool.add(b.replace(b"-", b"x", 2))
+        pool.add(b[:-1]); pool.add(b[1:]); pool.add(b[:10]); pool.add(b[:19]); pool.add(b[:16] + b[19:])
+    for _ in range(cx.n(400, 4000)):
+        y, mo, dd = rng.choice([1, 1970, 1999, 2020, 2021, 9999]), rng.choice([0, 1, 2, 4, 12, 13, 99]), rng.choice([0, 1, 28, 29, 30, 31, 32])
+        h, mi, sec = rng.choice([0, 12, 23, 24]), rng.choice([0, 59, 60]), rng.choice([0, 59, 60, 61])
+        frac = rng.choice([b"", b"", b".0", b".123456789", b".", b".x"])
+        zone = rng.choice([b"Z", b"+00:00", b"-00:00", b"+23:59", b"-12:00", b"+24:00", b"+01:60", b"+1:00", b"+0100", b"", b"z"])
+        pool.add(b"%04d-%02d-%02dT%02d:%02d:%02d%s%s" % (y, mo, dd, h, mi, sec, frac, zone))
+    pool = sorted(x for x in pool if b"\x00" not in x)
+    cases = ["validate %s %s" % (d, hexs(x)) for x in pool]
+    run.impl_only(cases)
+    for x in pool:
+        r = run.get("validate %s %s" % (d, hexs(x)))
+        want, day_ok = dt_accepts(x)
+        got = r[0] == "ok"
+        cx.count(("dt", x), True, "val:date-and-time:%s" % ("accepted" if got else "rejected"))
+        case = {"type": d, "lexical_hex": hexs(x), "lexical": x.decode("latin1"), "reply": r, "oracle": want, "day_exists": day_ok}
+        if got and not want:
+            cx.fail(COMP, "date-and-time accepts a lexical value outside the lexical space of the type (RFC 6991 pattern, RFC 3339 field ranges)",
+                    dict(case, law="dt_accept"))
+        elif not got and want and day_ok:
+            cx.fail(COMP, "date-and-time rejects a valid lexical value", dict(case, law="dt_reject"))
+        elif got and want and not day_ok:
+            cx.fail(COMP, "date-and-time accepts a day that does not exist in the month and stores another date", dict(case, law="dt_day"))
 
 
 def ip_oracle(run):
